@@ -77,12 +77,12 @@ def make_case(R):
     r = R.random()
     if r < 0.5:
         cfg = G.Cfg(filters=True, regex_functions=True, max_depth=1, max_segments=3, desc_p=0.12)
-        cfg.names = ["a", "b", "é", "\U0001F600", "a b", "x\"y", "", "0"]
+        cfg.names = ["a", "b", "é", "\U0001F600", "a b", "x\"y", "", "0", "a  b", "a \t b", "x   y"]
         q = G.QGen(R, cfg).query(root="$")
         text = G.render(q, R, ws=R.choice(["none", "sparse"]))
         rr = R.random()
         if rr < 0.7:
-            doc = D.doc_for(R, q, maxdepth=3, maxwidth=4)
+            doc = D.doc_for(R, q, maxdepth=3, maxwidth=4, extra_names=("a", "b", "a b", "a  b", "x y", "x   y"))
         elif rr < 0.8:
             doc = R.choice([[], {}, None, 0, "", "é\U0001F600\n\"", 1.5, True, -0.0, 1e300, [1.0, 1, True, None, "1"]])
         elif rr < 0.9:
